@@ -18,7 +18,7 @@ CHECKS = {
    "5/C02"),
  "C04": ("exploration",
    "runtime monitor: porcupine linearizability check of concurrent histories recorded at the signer boundary against Dirk's learned sequential semantics; slashability oracle; race detector; hook-steered overlaps",
-   "Short, heavily contended concurrent histories (single and batch requests over 3 shared keys) are recorded at the signer.Service boundary with call/return stamps and, together with a final state read, checked by porcupine against an unpartitioned multi-key model whose step function is the real rules' single-threaded behaviour. A verifhook handler parks requests between their read and write while a rival is in flight so that broken locking becomes an overlap. An independent-clients phase runs 12 clients side by side, each sequential on two private keys and judged against the sequential specification, so that state shared below the per-key locks becomes visible; several clients send batches over the same 130..600 keys in different orders, and the per-key winners must all be one client. A FAILED/UNKNOWN answer to a request that met no fault and was not abandoned is judged as a refusal that some order must explain; the single-threaded reference runs and every phase have watchdogs. Some requests are abandoned by their client (context cancelled) exactly between their read and their write; a FAILED/UNKNOWN answer is modelled as an indeterminate operation that stays open (nondeterministic porcupine model). A wire slice records histories over TLS/gRPC against the real daemon and takes the final reads from its database after it stops. The same workload runs under the Go race detector. Held on the interleavings observed (thousands of overlapping same-key pairs per run), not on all schedules.",
+   "Short, heavily contended concurrent histories (single and batch requests over 3 shared keys) are recorded at the signer.Service boundary with call/return stamps and, together with a final state read, checked by porcupine against an unpartitioned multi-key model whose step function is the real rules' single-threaded behaviour. A verifhook handler parks requests between their read and write while a rival is in flight so that broken locking becomes an overlap. An independent-clients phase runs 12 clients side by side, each sequential on two private keys and judged against the sequential specification, so that state shared below the per-key locks becomes visible; several clients send batches over the same 130..600 keys in different orders, and the per-key winners must all be one client. A FAILED/UNKNOWN answer to a request that met no fault and was not abandoned is judged as a refusal that some order must explain; the single-threaded reference runs and every phase have watchdogs; background traffic for ever-new keys passes through the same ruler and locker throughout. Some requests are abandoned by their client (context cancelled) exactly between their read and their write; a FAILED/UNKNOWN answer is modelled as an indeterminate operation that stays open (nondeterministic porcupine model). A wire slice records histories over TLS/gRPC against the real daemon and takes the final reads from its database after it stops. The same workload runs under the Go race detector. Held on the interleavings observed (thousands of overlapping same-key pairs per run), not on all schedules.",
    "Trusted: porcupine v1.3.0; the learned table (real code run sequentially); monotonic clock stamps taken outside the call.",
    "5/C04"),
  "C05": ("exploration",
@@ -43,7 +43,7 @@ CHECKS = {
    "5/C03"),
  "C06": ("fault_enumeration",
    "fault injection at every dependency seam (interposers + verifhook + undecodable records + OS-level write failure + closed store) with a per-position signature-iff-SUCCEEDED oracle",
-   "Every single fault of 23 kinds is injected for each of the five request kinds, batch sizes {1,2,5,17} and every position, at service and handler boundary; then seeded multi-fault sequences, a handler-only matrix over a stub signer, a closed store, a store closed under load (child; signatures that left it are re-verified against the reopened store), a value log whose descriptor is made unwritable, one request parked between its read and its write while the store closes over a populated memtable (the reopened store must cover any signature that left), and arguments that cannot be decided handed to the real signer service and ruler (absent credentials, data, checkpoints, identifiers; unknown actions; data of the wrong type). The oracle: signature iff SUCCEEDED at every position, no signature where a fault fired, every signature returned beside a faulted entry verifies for its own entry, a failed batch write fails every entry, and an entry that was not signed never lowers its key's records (half of the cases start from keys with history; a panic in the serving goroutine is answered as the server answers it). A fault whose injector never fired fails the run as inconclusive.",
+   "Every single fault of 23 kinds is injected for each of the five request kinds, batch sizes {1,2,5,17} and every position, at service and handler boundary; then seeded multi-fault sequences, a handler-only matrix over a stub signer, a closed store, a store closed under load (child; signatures that left it are re-verified against the reopened store), a value log whose descriptor is made unwritable, one request parked between its read and its write while the store closes over a populated memtable (the reopened store must cover any signature that left), and arguments that cannot be decided handed to the real signer service and ruler (absent credentials, data, checkpoints, identifiers; unknown actions; data of the wrong type). The oracle: signature iff SUCCEEDED at every position, no signature where a fault fired, every signature returned beside a faulted entry verifies for its own entry, a failed batch write fails every entry, and an entry that was not signed never lowers its key's records (half of the cases start from keys with history; a panic in the serving goroutine is answered as the server answers it; a panic at the batch store is one of the faults). A fault whose injector never fired fails the run as inconclusive.",
    "Faults are those producible through exported interfaces, the storage hook and the OS; values outside the four rule results are not injected.",
    "5/C06"),
  "C07": ("exploration",
@@ -88,7 +88,7 @@ CHECKS = {
    "5/C16"),
  "C17": ("exploration",
    "runtime monitor: three-valued session model with an interval clock over seeded event sequences on real instances",
-   "Seeded sequences of prepare/execute/commit/abort/fabricated contributions/sleeps over two names on 3-instance clusters with a 1.5 s timeout; only the stated implications are asserted and only where the interval clock decides the session's state (unknown otherwise). A progress watchdog reports messages that never return. A sliding-timeout scenario checks that messages during a generation do not extend it. An execute-in-flight scenario aborts and re-prepares a name while a contribution is delayed in transit: the new generation must not be committable.",
+   "Seeded sequences of prepare/execute/commit/abort/fabricated contributions/sleeps over two names on 3-instance clusters with a 1.5 s timeout; only the stated implications are asserted and only where the interval clock decides the session's state (unknown otherwise). A progress watchdog reports messages that never return. A generation that is aborted and prepared again must live for its own full timeout. A sliding-timeout scenario checks that messages during a generation do not extend it. An execute-in-flight scenario aborts and re-prepares a name while a contribution is delayed in transit: the new generation must not be committable.",
    "Expiry is real-time in the code; assertions are skipped in the timing grey zone.",
    "5/C17"),
  "C18": ("exploration",
@@ -98,7 +98,7 @@ CHECKS = {
    "5/C18"),
  "C19": ("exploration",
    "runtime monitor on the real daemon over TLS/gRPC: 16 methods x 16 caller credential kinds x 2 CA configurations, plus forged session tickets, with state-effect check on the stopped daemon's directories",
-   "Every RPC of every registered service is called on a real dirk child process with certificates generated at run time; callers without a certificate from the configured authority must obtain nothing and change nothing, accepted callers get exactly what the permission table gives their subject common name (SAN and extra chain certificates must not count). Hostile certificates (self-signed, other authority, expired / not yet valid of each origin, server-only usage) are force-sent so that the server decides; a host trust store holding the other authority, source-port reuse by a different client, TLS session resumption with tickets the caller minted itself under guessable keys, and callers with different certificates served at the same time (on the daemon built with the race detector) are covered.",
+   "Every RPC of every registered service is called on a real dirk child process with certificates generated at run time; callers without a certificate from the configured authority must obtain nothing and change nothing, accepted callers get exactly what the permission table gives their subject common name (SAN and extra chain certificates must not count). Hostile certificates (self-signed, other authority, expired / not yet valid of each origin, server-only usage) are force-sent so that the server decides; a host trust store holding the other authority, source-port reuse by a different client, a server certificate bundle carrying the other authority's certificate, TLS session resumption with tickets the caller minted itself under guessable keys, and callers with different certificates served at the same time (on the daemon built with the race detector) are covered.",
    "Loopback TCP; state effects read after the daemon stops.",
    "5/C19"),
  "C20": ("exploration",
@@ -148,7 +148,7 @@ def main():
         ],
         "checks": checks,
         "not_applicable": na,
-        "notes": "Technique family: runtime monitoring and sanitizers. VERIF_SEED selects the PRNG seed (default 1). Exit 2 + INCONCLUSIVE line means the run could not decide (never folded into held/violated). known_findings.json lists repaired defects (fixed entries suppress nothing).",
+        "notes": "Technique family: runtime monitoring and sanitizers. The services under test run with logging disabled or at trace level into a discard sink, alternating per assembled stack, check number and seed. If the harness process is brought down by a panic or fatal error whose innermost non-runtime frame is Dirk's, ./check reports a violation with the output as witness; a death on harness frames is inconclusive. VERIF_SEED selects the PRNG seed (default 1). Exit 2 + INCONCLUSIVE line means the run could not decide (never folded into held/violated). known_findings.json lists repaired defects (fixed entries suppress nothing).",
     }
     json.dump(m, open('/verif/MANIFEST.json', 'w'), indent=1)
     print("claimed:", sorted(CHECKS), "not claimed:", [x['property_id'] for x in na])
